@@ -823,7 +823,10 @@ def build_tools(ctx):
         raise vlib.CheckFailure("cannot build shim object: " + r.stderr[-1000:])
     gen_san = ctx.build_tool("gensquashfs", tag="san", extra_objs=[str(shim_o)],
                              ldflags=["-Wl,--wrap=readdir,--wrap=readdir64,--wrap=closedir"])
-    return {"gen": gen, "shim": shim, "dump": dump, "gen_san": gen_san}
+    # /repo's default configuration (pool allocator: mempool.c compiled, NO_CUSTOM_ALLOC not defined) for a share of the tool cases
+    t0 = time.time()
+    gen_pool = ctx.build_tool("gensquashfs", sanitize=False, tag="plainpool", custom_alloc=True)
+    return {"gen": gen, "shim": shim, "dump": dump, "gen_san": gen_san, "gen_pool": gen_pool, "pool_build_seconds": round(time.time() - t0, 1)}
 
 
 def parse_model_dump(dump):
@@ -922,8 +925,10 @@ def image_canon(text):
     return "\n".join(out) + "\nplacement ok", sizes, place
 
 
-def run_tool_case(ctx, tools, case, cmdline, orders, use_san):
-    """pack under each order; returns [order, image_canon, log_orders, model_sorted_canon, model_unsorted_canon, sha] or crash"""
+def run_tool_case(ctx, tools, case, cmdline, orders, use_san, pool=False):
+    """pack under each order; returns [order, image_canon, log_orders, model_sorted_canon, model_unsorted_canon, sha] or crash
+    pool=True: the gensquashfs built in /repo's default configuration (pool allocator), same shim, same oracle"""
+    assert not (pool and use_san)
     res, mlines, stats = [], [], {}
     img = ctx.scratch / "tool.sqfs"
     logf = ctx.scratch / "readdir.log"
@@ -936,7 +941,7 @@ def run_tool_case(ctx, tools, case, cmdline, orders, use_san):
         env.pop("SOURCE_DATE_EPOCH", None)
         if not use_san:
             env["LD_PRELOAD"] = str(tools["shim"])
-        exe = tools["gen_san"] if use_san else tools["gen"]
+        exe = tools["gen_san"] if use_san else tools["gen_pool"] if pool else tools["gen"]
         try:
             r = subprocess.run([str(exe)] + cmdline + [str(img)], env=env, stdout=subprocess.PIPE, stderr=subprocess.PIPE, timeout=300)
         except subprocess.TimeoutExpired:
@@ -992,7 +997,8 @@ def classify_tool(ctx, case, cmdline, res, facts, counters):
     wit_ok = all(x[1] == x[4] for x in res)
     replay = {"case": case.describe(), "cmdline": cmdline, "tree_root_listing": listing(case.tree.root), "orders": [x[0] for x in res],
               "sha256": shas, "image": [x[1] for x in res][:3], "model_sorted": [x[3] for x in res][:3],
-              "model_unsorted": [x[4] for x in res][:3], "level": "tool"}
+              "model_unsorted": [x[4] for x in res][:3], "level": "tool",
+              "configuration": "pool" if getattr(case, "pool_configuration", False) else "malloc"}
     if wit_ok and multi and hl_on:
         counters["d16"] += 1
         if counters["d16"] > 5 and ctx.known_finding(D16_KEY) is None:
@@ -1765,8 +1771,11 @@ def run(ctx):
         tree_facts(wt.root), "witness-nohl")
 
     tool_hist = {"tool_cases": 0, "tool_cases_asan": 0, "tool_failed_packs": 0, "tool_packfile_cases": 0}
+    # cases packed by the gensquashfs of /repo's default configuration (pool allocator; same shim, model and comparisons)
+    pool_hist = {"pool_configuration_cases": 0, "pool_configuration_runs": 0, "pool_configuration_packs_succeeded": 0,
+                 "pool_configuration_cases_with_hard_links_detected": 0, "build_seconds": tools.get("pool_build_seconds")}
 
-    def one_tool(tree, facts, idx, use_san, nofile=None, force_packdir=False):
+    def one_tool(tree, facts, idx, use_san, nofile=None, force_packdir=False, pool=False):
         if force_packdir:
             cmd = ["-q", "-f", "-b", str(BLK), "-j", "4", "-d", "mtime=0", "--pack-dir", tree.root.decode("utf-8", "surrogateescape")]
             case = Case("packdir", tree, {"uid": 0, "gid": 0, "mtime": 0, "mode": 0o755}, DEFAULT_FLAGS, {"uid": 0, "gid": 0, "mtime": 0})
@@ -1774,13 +1783,23 @@ def run(ctx):
         else:
             case, cmd = gen_tool_case(ctx, tree, idx, facts[0], nofile)
         orders = orders_for(ctx, n_orders)
-        res, crash = run_tool_case(ctx, tools, case, cmd, orders, use_san)
+        case.pool_configuration = pool
+        res, crash = run_tool_case(ctx, tools, case, cmd, orders, use_san, pool=pool)
         if crash:
             rc, err, o = crash
             ctx.violation("crash:tool:%s" % vlib.sha(str(err))[:10], "gensquashfs/reader aborted (rc=%s) under readdir order %s: %s" % (rc, o, str(err)[-400:]),
-                          {"case": case.describe(), "cmdline": cmd, "order": o, "stderr": err, "tree": listing(case.tree.root)})
+                          {"case": case.describe(), "cmdline": cmd, "order": o, "stderr": err, "tree": listing(case.tree.root),
+                           "configuration": "pool" if pool else "malloc"})
             return
         classify_tool(ctx, case, cmd, res, facts, counters)
+        if pool:
+            ok_packs = sum(1 for x in res if x[5] != "failed")
+            pool_hist["pool_configuration_cases"] += 1
+            pool_hist["pool_configuration_runs"] += len(res)
+            pool_hist["pool_configuration_packs_succeeded"] += ok_packs
+            hl_on = not (case.flags & F_NO_HL) if case.kind == "packdir" else not (case.glob["flags"] & F_NO_HL)
+            pool_hist["pool_configuration_cases_with_hard_links_detected"] += 1 if (facts[0] and hl_on and ok_packs) else 0
+            pool_hist["_last_ok_packs"] = ok_packs
         tool_hist["tool_cases"] += 1
         tool_hist["tool_cases_asan"] += 1 if use_san else 0
         tool_hist["tool_packfile_cases"] += 1 if case.kind == "packfile" else 0
@@ -1822,7 +1841,9 @@ def run(ctx):
             one(gen_glob_case(ctx, tree, 500000 + t, facts[0], nofile=facts[4]), facts, "glob-nofile")
             hist["glob_nofile_cases"] += 1
         if t % tool_every == 0:
-            one_tool(tree, facts, t, use_san=(t % (4 * tool_every) == 0))
+            # every 5th tool case (chosen by index, no rng draw) is packed by the pool-configured gensquashfs instead
+            in_pool = (t // tool_every) % 5 == 1
+            one_tool(tree, facts, t, use_san=(t % (4 * tool_every) == 0) and not in_pool, pool=in_pool)
             if facts[4]:
                 one_tool(tree, facts, 700000 + t, False, nofile=facts[4])
                 hist["tool_nofile_cases"] += 1
@@ -1851,8 +1872,40 @@ def run(ctx):
             one_tool(tree, facts, 900000 + bi, use_san=False, force_packdir=True)
             hist["big"]["tool_cases"] += 1
         shutil.rmtree(tree.root, ignore_errors=True)
-    n_orders = save_orders
     hist["big"]["seconds"] = round(time.time() - t0, 1)
+    # 3. pool configuration, directed: the hard-link filter (lib/sqfs/src/io/dir_hl.c) keeps one rbtree node (48 bytes) per
+    #    non-directory inode of the scan and the pool hands out 65536-byte blocks (1344 such nodes): a tree with more than
+    #    1344 non-directory inodes and hard-link groups of >= 600 names makes the pool grow past its first block while
+    #    groups are being looked up.  (After every other case: the random stream of those is what it was.)
+    t0 = time.time()
+    n_orders = 3 if ctx.quick() else 6
+    tree = make_big_tree(ctx, 99, 1700 if ctx.quick() else 2600, 40)
+    pdir = tree.root + b"/hl.pool"
+    os.mkdir(pdir)
+    tree.dirs.append(pdir)
+    regs = sorted(p for p in tree.files if stat.S_ISREG(os.lstat(p).st_mode) and os.lstat(p).st_nlink == 1)
+    for i, src in enumerate(ctx.rng.sample(regs, 260)):
+        for j in range(1 if i % 4 else 3):                       # groups of 2 and of 4 names
+            lp = pdir + b"/" + (b"%c%03d.%d" % (b"az\xe9"[i % 3], i, j))
+            os.link(src, lp)
+            tree.files.append(lp)
+    for p in (pdir, tree.root):
+        os.utime(p, ns=(10 ** 9, 10 ** 9))
+    names, inodes = 0, set()
+    for dp, dn, fn in os.walk(tree.root):
+        for x in fn + [d for d in dn if os.path.islink(dp + b"/" + d)]:
+            st_ = os.lstat(dp + b"/" + x)
+            inodes.add((st_.st_dev, st_.st_ino))
+            names += 1 if st_.st_nlink > 1 else 0
+    facts = tree_facts(tree.root)
+    pool_hist["_last_ok_packs"] = 0
+    one_tool(tree, facts, 950000, use_san=False, force_packdir=True, pool=True)
+    pool_hist["directed_big_case"] = {"names_in_hard_link_groups": names, "non_directory_inodes": len(inodes), "entries": facts[1],
+                                      "orders": n_orders, "packs_succeeded": pool_hist.pop("_last_ok_packs"),
+                                      "rbtree_nodes_per_65536_byte_pool_block": 1344, "seconds": round(time.time() - t0, 1)}
+    shutil.rmtree(tree.root, ignore_errors=True)
+    n_orders = save_orders
+    hist["pool_configuration"] = pool_hist
     hist.update(tool_hist)
     hist.update(TOOL_EXTRA)
     hist["shim"] = dict(SHIM)
@@ -1883,6 +1936,17 @@ def run(ctx):
     hist["floors"] = {n: [v, f] for n, v, f in floors}
     if starved and not ctx.violations:
         raise vlib.CheckFailure("coverage floor not reached (the check would pass without having looked): " + "; ".join(starved))
+    pbig = pool_hist["directed_big_case"]
+    pool_floors = [("pool-configuration tool cases", pool_hist["pool_configuration_cases"], 4 if q else 30),
+                   ("pool-configuration gensquashfs runs", pool_hist["pool_configuration_runs"], 24 if q else 300),
+                   ("pool-configuration packs that succeeded", pool_hist["pool_configuration_packs_succeeded"], 12 if q else 150),
+                   ("names in hard-link groups of the directed pool-configuration case", pbig["names_in_hard_link_groups"], 600),
+                   ("non-directory inodes of the directed pool-configuration case (one pool block holds 1344 nodes)", pbig["non_directory_inodes"], 1400),
+                   ("packs of the directed pool-configuration case that succeeded", pbig["packs_succeeded"], 2)]
+    hist["floors"].update({n: [v, f] for n, v, f in pool_floors})
+    pstarved = ["%s: %d < %d" % (n, v, f) for n, v, f in pool_floors if v < f]
+    if pstarved and not ctx.violations:
+        raise vlib.CheckFailure("too few runs against /repo's default configuration (pool allocator): " + "; ".join(pstarved))
 
     ctx.cov.update({
         "evaluations": counters["evaluations"],
@@ -1893,6 +1957,7 @@ def run(ctx):
         "spec_monitor": {"predicate": "Sqfs.FsTree.SortedNames on every child list of every tree the real code built",
                          "lists_checked": counters.get("monitor_lists", 0), "violations": counters.get("monitor_bad", 0)},
         "known_finding_cases": counters["d16"], "tool_runs": counters["tool_runs"],
+        "pool_configuration_runs": pool_hist["pool_configuration_runs"], "pool_configuration": pool_hist,
         "histogram": hist,
         "orders_per_case": n_orders,
         "input_distribution": "seeded random directory trees under ctx.scratch: 4..400 entries, depth <= 6, names from a pool with shared "
@@ -2025,7 +2090,8 @@ def replay(ctx, path):
             if c in ("-A", "--xattr-file") and getattr(case, "xattr_text", None) is not None:
                 (ctx.scratch / "replay_xattr.txt").write_bytes(case.xattr_text.encode("latin1") + b"\n")
                 cmd[i + 1] = str(ctx.scratch / "replay_xattr.txt")
-        res, crash = run_tool_case(ctx, tools, case, cmd, orders, use_san=False)
+        case.pool_configuration = r.get("configuration") == "pool"
+        res, crash = run_tool_case(ctx, tools, case, cmd, orders, use_san=False, pool=case.pool_configuration)
         if crash:
             print("REPRODUCED: tool aborted:", crash)
             return 1
